@@ -1,6 +1,7 @@
 import Driver.Common
 import LiskVerif.Model.Node
 import LiskVerif.Model.NodeFail
+import LiskVerif.Model.NodeStale
 import LiskVerif.Model.Codec
 import LiskVerif.Gen.Schemas
 
@@ -262,6 +263,16 @@ def step (d : DSt) (w : List String) : DSt × String :=
         else (d, "unsupported")
       | _, _ => (d, "unsupported")
     | _, _ => bad
+  | "delarg" :: r =>
+    -- Executer.deleteBlock with an explicit argument block (harness/c04/stale.go): any block - the tip, a block
+    -- removed earlier, a block of another branch, a fabricated block, a finalized block; `ab=0`: the application
+    -- refused the revert request. The block is not registered with the codecs: it is not stored anywhere.
+    match parseBlock r, boolA r "st" with
+    | some b, some st =>
+      let (s', res) := deleteBlockArg (codecs d) d.cfg d.st b st ((boolA r "ab").getD true)
+      let d' := { d with st := s' }
+      (d', showState d' d.st (showRes res))
+    | _, _ => bad
   | ["restart"] =>
     let (s', res) := restart (codecs d) d.cfg d.st
     let d' := { d with st := s' }
@@ -304,6 +315,9 @@ def step (d : DSt) (w : List String) : DSt × String :=
       | some h => (d, "ok sfin=" ++ toString h.height ++ " sfz=" ++ short h.id)
       | none => (d, "err")
   | ["twin"] => (d, "ok")
+  -- `forge <block>` (harness/c04/reorgfresh.go): the BFT step of a candidate block on a staged store that is
+  -- dropped (what the generator does for its own block): the model has no component memory, nothing changes
+  | "forge" :: _ => (d, "ok")
   | ["cleartemp"] =>
     let d' := { d with st := clearTemp d.st }
     (d', showState d' d.st "ok")
